@@ -15,6 +15,7 @@ Guards are (polarity, ast expression) pairs; callee guards are substituted
 through the argument binding at each call site.
 """
 import ast
+import re
 import copy
 
 from .model import AnalysisError
@@ -242,7 +243,15 @@ class Effects:
                     out |= self.map_tags(rets, b, env, f, ctx)
                 return out or {'call:' + n}
             return {'call:' + n}
+        if isinstance(e, ast.Dict):
+            out = set()
+            for v in e.values:
+                out |= self.prov(v, env, f, ctx)
+            return out or {'EXPR'}
         if isinstance(e, ast.Subscript):
+            item = env.get('#item:' + ast.unparse(e))
+            if item is not None:
+                return set(item)             # D[K] = v was the last thing done to this entry on every path here
             if isinstance(e.value, ast.Call) and ast.unparse(e.value.func) == 'os.path.split':
                 if isinstance(e.slice, ast.Constant) and e.slice.value in (1, -1):
                     return {'BASENAME'}
@@ -478,8 +487,19 @@ class Effects:
                     m[x.id] = env['#expr:' + x.id]
             return subst(test, m) if m else test
 
+        def forget_items(name, env):
+            for k in [k for k in env if k.startswith('#item:') and re.search(r'\b%s\b' % re.escape(name), k[6:])]:
+                del env[k]
+
         def assign(t, v, env):
+            if isinstance(t, ast.Subscript) and isinstance(t.value, ast.Name) and v is not None:
+                # an entry of a local container: the container may now hold this too; the entry itself holds exactly this
+                pv = self.prov(v, env, f, ctx)
+                env[t.value.id] = set(env.get(t.value.id, set())) | pv
+                env['#item:' + ast.unparse(t)] = sorted(pv)
+                return
             if isinstance(t, ast.Name):
+                forget_items(t.id, env)
                 env[t.id] = self.prov(v, env, f, ctx)
                 if isinstance(v, (ast.Call, ast.Compare, ast.BoolOp, ast.UnaryOp)) and \
                         not any(isinstance(x, ast.Name) and x.id == t.id for x in ast.walk(v)):
@@ -515,6 +535,11 @@ class Effects:
                     vals = [e.get(k) for e in envs]
                     if all(v is not None for v in vals) and len({ast.dump(v) for v in vals}) == 1:
                         out[k] = vals[0]
+                    continue
+                if k.startswith('#item:'):
+                    vals = [e.get(k) for e in envs]
+                    if all(v is not None for v in vals):
+                        out[k] = sorted(set().union(*[set(v) for v in vals]))
                     continue
                 if k.startswith('#'):
                     vals = [e.get(k) for e in envs if e.get(k)]
@@ -582,7 +607,17 @@ class Effects:
                         pv = {'INT'}
                     for x in ast.walk(s.target):
                         if isinstance(x, ast.Name):
+                            forget_items(x.id, env)
                             env[x.id] = set(pv)
+                    if isinstance(s.iter, (ast.Tuple, ast.List)) and isinstance(s.target, (ast.Tuple, ast.List)) and s.iter.elts and \
+                            all(isinstance(r, (ast.Tuple, ast.List)) and len(r.elts) == len(s.target.elts) for r in s.iter.elts):
+                        # a literal table of rows: each loop variable takes the values of its own column
+                        for i, a in enumerate(s.target.elts):
+                            if isinstance(a, ast.Name):
+                                col = set()
+                                for r in s.iter.elts:
+                                    col |= self.prov(r.elts[i], env, f, ctx)
+                                env[a.id] = col
                     if isinstance(s.iter, ast.Call) and ast.unparse(s.iter.func) == 'zip' \
                             and isinstance(s.target, ast.Tuple):
                         for a, b in zip(s.target.elts, s.iter.args):
